@@ -112,7 +112,8 @@ def make_ids(rng, n):
 def make_table(rng, ids):
   k = rng.randint(0, 4)
   # fixed-width string columns (S*/U*) are "string arrays": not serializable by design (C16), hence not storable in SQLite
-  pool = [kd for kd in gen.FEATURE_KINDS if not isinstance(kd[1], str)]
+  # (string columns are not serializable; non-native byte order is normalised by the serialization layer -- both are C16's business)
+  pool = [kd for kd in gen.FEATURE_KINDS if not isinstance(kd[1], str) and kd[0] not in ('be32', 'bef4')]
   sel = rng.choice(len(pool), size=k, replace=False) if k else []
   kinds = [pool[i] for i in sel]
   table = {}
